@@ -191,7 +191,7 @@ def negoLine (_ : Unit) (ws : List String) : Unit × String :=
     | none => bad
   | "our" :: cfg =>
     match cfg? cfg with
-    | some cfg => ((), toHex (encodeOpen (ourOpen cfg)) ++ " " ++ b01 (wfOpen (ourOpen cfg)))
+    | some cfg => ((), toHex (encodeOpen (ourOpen cfg)) ++ " " ++ b01 (wfOpen (ourOpen cfg)) ++ b01 (cfgOK cfg))
     | none => bad
   | "run" :: body :: cfg =>
     match hexBytes? body, cfg? cfg with
